@@ -4,3 +4,4 @@ pub mod classical;
 pub mod expr;
 pub mod ident;
 pub mod rf;
+pub mod rfprog;
